@@ -16,7 +16,11 @@ def specImg (ids : List Nat) (i : Img) : Spec.Gfx.Img :=
 /-- `strconv.Atoi` without the 64-bit clamp -/
 def atoiNat (ds : Bytes) : Nat := if ds.isEmpty ∨ !ds.all isDigit then 0 else natOfDigits ds
 
-def shortB (s : Bytes) : Bool := s.length ≤ 9
+/-- the digit string denotes a number below 2^32 (what survives `uint32(su.Intval(s))` unchanged) -/
+def u32B (s : Bytes) : Bool := natOfDigits s < 2 ^ 32
+
+/-- … below 2^63 (what `strconv.Atoi` returns without clamping) -/
+def intB (s : Bytes) : Bool := natOfDigits s < 2 ^ 63
 
 def chunkOf (m : Sub) : Spec.Gfx.Chunk :=
   { fmt := typeOfPrefix m.g1, ids := m.g2, idx := atoiNat m.g3,
@@ -24,8 +28,8 @@ def chunkOf (m : Sub) : Spec.Gfx.Chunk :=
       some ⟨atoiNat m.g5, atoiNat m.g6, atoiNat m.g7,
         if m.g8 = [] then none else some (atoiNat m.g9, atoiNat m.g10)⟩,
     payload := B64.decode? m.g11,
-    small := (splitComma m.g2).all shortB && shortB m.g3 &&
-      (m.g4 = [] || (shortB m.g5 && shortB m.g6 && shortB m.g7 && (m.g8 = [] || (shortB m.g9 && shortB m.g10)))) }
+    small := (splitComma m.g2).all u32B && intB m.g3 &&
+      (m.g4 = [] || (intB m.g5 && u32B m.g6 && u32B m.g7 && (m.g8 = [] || (u32B m.g9 && u32B m.g10)))) }
 
 /-- the chunk a line denotes for the decoder (`none`: not a graphics line) -/
 def readLine (l : Bytes) : Option Spec.Gfx.Chunk := (matchGfx l).map chunkOf
